@@ -34,6 +34,7 @@ type zzAggChain struct {
 }
 
 func (c *zzAggChain) FinalizedCheckpoint() common.Checkpoint         { return common.Checkpoint{} }
+func (c *zzAggChain) ByBlock(root common.Root) (beacon.ChainEntry, bool) { return c.entry, true }
 func (c *zzAggChain) InSubtree(anchor, root common.Root) (bool, bool) { return false, true }
 func (c *zzAggChain) Towards(ctx context.Context, from common.Root, to common.Slot) (beacon.ChainEntry, error) {
 	return c.entry, nil
